@@ -34,6 +34,7 @@ class Fn:
     epilogue: str = ""                  # R10: proof text after the body value is computed
     before_tail: str = ""               # R10: proof text placed just before the tail expression
     no_ufcs: bool = False
+    variant: str = ""                   # distinguishes several obligations on the same function (e.g. "#strict")
     unroll: object = None               # R18: "all" or list of loop ordinals with constant bounds to unroll
     unroll_ty: object = "usize"         # type of the unrolled loop variable (or {ordinal: type})
     loops: dict = field(default_factory=dict)   # ordinal -> "invariant ..., decreases ..."
@@ -532,6 +533,11 @@ def build_fn(unit, item, imp, fnitem, spec: Fn, cover=False):
             new_tail += "\n        " + tail + "\n    "
         body = body[:k] + new_tail + "}"
         applied.append(("R10", "tail expression E", "let r_ = E; proof {..}; r_"))
+    fn_out = spec.name
+    if spec.variant:
+        fn_out = spec.name + "__" + re.sub(r'\W', '', spec.variant)
+        sig = re.sub(r'\bfn\s+' + re.escape(spec.name) + r'\b', 'fn ' + fn_out, sig, count=1)
+        applied.append(("R13b", f"fn {spec.name}", f"fn {fn_out} (second obligation on the same function text)"))
     extra = spec.attrs
     if spec.rlimit:
         extra += f"\n#[verifier::rlimit({spec.rlimit})]"
@@ -541,9 +547,9 @@ def build_fn(unit, item, imp, fnitem, spec: Fn, cover=False):
         extra += "\n#[verifier::spinoff_prover]"
     text = f"{attrs}\n{extra}\n{sig}{contract}\n{body}\n"
     lo, hi = fnitem.line_span()
-    meta = dict(fn=spec.name, mode="verify", file=item.file, header=item.header, lines=[lo, hi],
+    meta = dict(fn=fn_out, display=spec.name, mode="verify", file=item.file, header=item.header, lines=[lo, hi],
                 sha256=fnitem.sha256(), rules=[dict(rule=r, before=b[:200], after=a[:200]) for (r, b, a) in applied],
-                props=list(spec.props), tag=spec.tag)
+                props=list(spec.props), tag=spec.tag, variant=spec.variant)
     return text, meta
 
 
